@@ -8,12 +8,12 @@
                           shorter than 64 KiB  (C06ProfileProofs.entry_ok)
    tt_fitsb 1 1 t       : name lengths, child counts and values of the trie are below 2^64
 
-   The fourth format (the no-dict tree codec, tree.SerializeNoDict / DeserializeNoDict) is modelled in another
-   builder's Model/TreeCodec.v; its agreement with the multiset is established here by the correspondence run only
-   (the stored tree is compared in Coq with profile_of ms on every case), not by a theorem. *)
+   tree_body cap ms     : Tree.SerializeNoDict(cap) of the profile    tree_via_tree : tree.DeserializeNoDict
+   t_fitsb t            : name lengths <= MaxInt64, self values and child counts below 2^64 (TreeCodecProofs)
+   The model and the round trip of the tree codec are builder tree-b's (Model/TreeCodec.v, Proofs/TreeCodecProofs.v). *)
 From Coq Require Import Ascii.
-From Pyro Require Import Model.Base Model.Tree Model.Varint Model.TTrie Model.TextFormats Model.Ingest.
-From Pyro Require Import Proofs.TTrieProofs Proofs.TextFormatsProofs Proofs.C06ProfileProofs.
+From Pyro Require Import Model.Base Model.Tree Model.Varint Model.TTrie Model.TextFormats Model.TreeCodec Model.Ingest.
+From Pyro Require Import Proofs.TTrieProofs Proofs.C18SortedProofs Proofs.TextFormatsProofs Proofs.TreeCodecProofs Proofs.C06ProfileProofs.
 
 Local Open Scope N_scope.
 
@@ -25,6 +25,12 @@ Theorem ttrie_roundtrip : forall t,
     (forall K v, In (K, v) (tt_iterate t') <-> In (K, v) (tt_iterate t)).
 Proof. exact TTrieProofs.ttrie_roundtrip. Qed.
 Print Assumptions ttrie_roundtrip.
+
+(* as DESIGN states it: for the agent's tries (built by Insert) Iterate after the wire is the same sequence *)
+Theorem ttrie_roundtrip_iterate : forall ms, tt_fitsb 1 1 (tt_of_multiset ms) = true ->
+  option_map tt_iterate (tt_deserialize (tt_serialize 1 1 (tt_of_multiset ms))) = Some (tt_iterate (tt_of_multiset ms)).
+Proof. exact C18SortedProofs.ttrie_roundtrip_iterate. Qed.
+Print Assumptions ttrie_roundtrip_iterate.
 
 (* Insert adds to one key and leaves every other key alone (shared with C18) *)
 Theorem ttrie_den_insert : forall key v merge t, tt_wf t ->
@@ -42,21 +48,25 @@ Theorem C06_profile_is_multiset : forall a b,
 Proof. exact profile_of_equiv. Qed.
 Print Assumptions C06_profile_is_multiset.
 
-(* collapsed text, one stack per line and the binary trie all build the tree of the multiset itself *)
-Theorem C06_formats_agree : forall ms, Forall entry_ok ms -> tt_fitsb 1 1 (tt_of_multiset ms) = true ->
+(* collapsed text, one stack per line, the binary trie and the binary tree all build the tree of the multiset
+   itself; cap is the node budget the client passes to SerializeNoDict (no pruning while the tree fits it) *)
+Theorem C06_formats_agree : forall cap ms, Forall entry_ok ms ->
+  tt_fitsb 1 1 (tt_of_multiset ms) = true -> t_fitsb (profile_of ms) = true -> (t_size (profile_of ms) <= cap)%nat ->
   tree_via_groups (render_groups ms) = Some (profile_of ms) /\
   tree_via_lines (render_lines ms) = Some (profile_of ms) /\
-  tree_via_trie (trie_body ms) = Some (profile_of ms).
-Proof. exact formats_agree. Qed.
+  tree_via_trie (trie_body ms) = Some (profile_of ms) /\
+  tree_via_tree (tree_body cap ms) = Some (profile_of ms).
+Proof. exact formats_agree4. Qed.
 Print Assumptions C06_formats_agree.
 
 Example C06_formats_agree_nonvacuous :
   let ms := [([109;97;105;110;59;102;111;111], 3); ([109;97;105;110;59;102;111;111;98;97;114], 2);
              ([109;97;105;110], 1); ([120;32;121;59;195;169], 4); ([109;97;105;110;59;102;111;111], 5)] in
-  tt_fitsb 1 1 (tt_of_multiset ms) = true /\
+  tt_fitsb 1 1 (tt_of_multiset ms) = true /\ t_fitsb (profile_of ms) = true /\ Nat.leb (t_size (profile_of ms)) 2048 = true /\
   tree_via_groups (render_groups ms) = Some (profile_of ms) /\
   tree_via_lines (render_lines ms) = Some (profile_of ms) /\
   tree_via_trie (trie_body ms) = Some (profile_of ms) /\
+  tree_via_tree (tree_body 2048 ms) = Some (profile_of ms) /\
   t_total (profile_of ms) = 15.
 Proof. vm_compute. repeat split. Qed.
 
